@@ -182,6 +182,24 @@ impl ObjectCountBuilder {
         }
     }
 
+    #[cfg(rosu_pp_verif)]
+    pub(crate) fn verif_summary(&self) -> String {
+        match self {
+            Self::Regular { count, take } => format!(
+                r#""regular":[{},{},{},{}]"#,
+                count.fruits, count.droplets, count.tiny_droplets, take
+            ),
+            Self::Gradual { all, .. } => {
+                let rows: Vec<String> = all
+                    .iter()
+                    .map(|c| format!("[{},{}]", u8::from(c.fruit), c.tiny_droplets))
+                    .collect();
+
+                format!(r#""gradual":[{}]"#, rows.join(","))
+            }
+        }
+    }
+
     pub const fn record_tiny_droplets(&mut self, n: u32) {
         match self {
             Self::Regular { count, take } => {
